@@ -540,6 +540,62 @@ def float_fit_check(p, xvals, success=True, nondefault_config=False):
     return probs
 
 
+def float_fit_real(p, rows=3, seed=0):
+    """fit with the REAL optimiser on a small matrix: returns (problems, exception text or None)."""
+    import formak.python as fp
+    from formak.exceptions import MinimizationFailure
+
+    rng = random.Random(seed)
+    with quiet():
+        ad = float_adapter(p, {})
+        orig = dict(ad.get_params())
+        orig_cfg = dataclasses.asdict(orig["config"])
+        X = np.array([[rng.randint(-8, 8) / 8.0 for _ in range(width(p))] for _ in range(rows)])
+        try:
+            ad.fit(X)
+        except MinimizationFailure:
+            return [], None
+        except Exception as ex:
+            return [f"fit raises {type(ex).__name__}: {ex}"], f"{type(ex).__name__}: {ex}"
+        now = ad.get_params()
+    probs = []
+    st = p.symtab()
+    for k_ in ("symbolic_model", "sensor_models", "calibration_map"):
+        if now[k_] is not orig[k_]:
+            probs.append(f"{k_} changed")
+    if dataclasses.asdict(now["config"]) != orig_cfg:
+        probs.append("config changed")
+    if set(now["process_noise"]) != {st[c] for c in p.control}:
+        probs.append("process noise keys")
+    if set(now["sensor_noises"]) != set(p.sensors) or any(set(map(str, now["sensor_noises"][k_])) != set(p.sensors[k_]) for k_ in p.sensors if k_ in now["sensor_noises"]):
+        probs.append("sensor noise keys")
+    for c in p.control:
+        v = float(now["process_noise"].get(st[c], float("nan")))
+        if not (np.isfinite(v) and v > 0):
+            probs.append(f"process_noise[{c}]={v} not finite positive")
+    for k_ in p.sensors:
+        for r, v in now["sensor_noises"].get(k_, {}).items():
+            if not np.isfinite(float(v)):
+                probs.append(f"sensor_noises[{k_}][{r}]={v} not finite")
+    return probs, None
+
+
+def task_fit_real(p, label, tier, seed):
+    """The optimiser is outside the claim, but what fit does around it is not: with the real scipy optimiser, from a
+    valid initial noise in an unusual regime (tiny / large), fit either raises MinimizationFailure or hands back the same
+    model with finite positive noise under the same names."""
+    part = Part()
+    part.program(p.id)
+    part.fn("python.SklearnEKFAdapter.fit")
+    key = f"{p.id}/fit-real/{label}"
+    probs, exc = float_fit_real(p, seed=seed)
+    part.record(Q("sat" if probs else "unsat", None, 0.0, ""), f"{key}: fit with the real optimiser: MinimizationFailure or same model + finite positive noise under the same names (concrete)")
+    if probs:
+        path = write_replay(PID, {"key": key, "info": {"program": p.id, "kind": "fit-real", "label": label}, "inputs": {}, "problems": probs})
+        part.violation(key, f"fit from {label} initial noise ({p.process_noise}, {p.sensor_noise}): {probs[0][:300]}", path)
+    return part.d
+
+
 def _dispatch(fn, args):
     return fn(*args)
 
@@ -556,6 +612,13 @@ def run(tier, seed):
     if tier != "quick":
         tasks += [(task_fit, (CP.P3(), tier, seed))]
         tasks += [(task_params, (CP.P1(), tier, seed)), (task_params, (CP.P10(), tier, seed)), (task_fit, (CP.P10(), tier, seed)), (task_flatten_roundtrip, (CP.P8(), tier, seed))]
+    p1 = CP.P1()
+    tiny = CP.with_noise(p1, process={c: 1e-10 for c in p1.control}, sensor={k_: {r: 1e-10 for r in rs} for k_, rs in p1.sensor_noise.items()}, pid="P1-xy-noise-1e-10")
+    tasks.append((task_fit_real, (tiny, "tiny (1e-10)", tier, seed)))
+    tasks.append((task_fit_real, (p1, "the program's", tier, seed)))
+    if tier != "quick":
+        big = CP.with_noise(p1, process={c: 1e4 for c in p1.control}, sensor={k_: {r: 1e4 for r in rs} for k_, rs in p1.sensor_noise.items()}, pid="P1-xy-noise-1e4")
+        tasks.append((task_fit_real, (big, "large (1e4)", tier, seed)))
     for d in pmap(_dispatch, tasks):
         rep.merge(d)
     rep.bounds = {"programs": "P1 (1 control, 2 single-reading sensors), P3 (2 controls, sensors of 1 and 2 readings), P10/P8 in thorough", "optimiser": "scipy.optimize.minimize replaced by its contract: evaluates the objective, returns success in {True, False} and an arbitrary real vector", "training_matrix": "one symbolic row", "config": "explicit configuration (config=None is outside the property)"}
@@ -573,6 +636,14 @@ def replay(path):
         r = json.load(f)
     info = r["info"]
     ps = {p.id: p for p in CP.catalogue()}
+    if info.get("kind") == "fit-real":
+        p1 = CP.P1()
+        v = {"P1-xy-noise-1e-10": 1e-10, "P1-xy-noise-1e4": 1e4}.get(info["program"])
+        q = p1 if v is None else CP.with_noise(p1, process={c: v for c in p1.control}, sensor={k_: {r_: v for r_ in rs} for k_, rs in p1.sensor_noise.items()}, pid=info["program"])
+        probs, exc = float_fit_real(q, seed=int(r.get("seed", 0)))
+        print(probs)
+        print("REPRODUCED" if probs else "not reproduced")
+        return 1 if probs else 0
     p = ps[info["program"]]
     if info["kind"] == "fit":
         pos = flat_positions(p)
